@@ -159,7 +159,7 @@ def c02_random(rng):
 
 
 # ------------------------------------------------------------------ C03
-EXC_KINDS = ['raise', 'printraise', 'callraise', 'emptyraise', 'falsyraise', 'quietraise', 'callquietraise']
+EXC_KINDS = ['raise', 'printraise', 'callraise', 'emptyraise', 'falsyraise', 'quietraise', 'callquietraise', 'awaitcallraise', 'awaitprintraise']
 WANT_FORMS = ['none', 'exact', 'stack', 'wrongmsg', 'wrongtype', 'nontb', 'nontb_dots', 'nontb_hdronly', 'ellipsis', 'dotted', 'oldheader']
 
 
@@ -248,8 +248,8 @@ def build_c03(pre_kinds, exc_kind, post_kinds, form, flags, on_error='return'):
 def c03_table():
     for exc_kind in EXC_KINDS:
         for form in WANT_FORMS:
-            for pos in ('first', 'middle', 'last'):
-                pre = [] if pos == 'first' else ['assign', 'print']
+            for pos in ('first', 'middle', 'last', 'after-await'):
+                pre = [] if pos == 'first' else (['await', 'print'] if pos == 'after-await' else ['assign', 'print'])
                 post = [] if pos == 'last' else ['expr', 'print']
                 for ign in (False, True):
                     for ell in (True, False):
